@@ -35,6 +35,10 @@ def expand_source_blocks(
     current_level: set[int] = set([root])
     next_level: set[int] = set()
 
+    # Nodes that are expanded by this procedure (as opposed to nodes that were
+    # already expanded when the procedure started).
+    expanded_here: set[int] = set()
+
     bfs_depth = 0
 
     while len(current_level) > 0:
@@ -49,8 +53,15 @@ def expand_source_blocks(
 
         for node in sorted(current_level):  # Sorted for determinism
             if sd.node_data(node)["expanded"]:
-                # We re-discovered a previously expanded node.
+                # We re-discovered a previously expanded node. If it was expanded
+                # by some earlier procedure, its successors were never scheduled
+                # here and the search has to continue through all of them.
+                if node not in expanded_here:
+                    expanded_here.add(node)
+                    next_level = next_level | set(sd.node_successors(node))
                 continue
+
+            expanded_here.add(node)
 
             # Only continue if the succession diagram isn't too large.
             if (size_limit is not None) and (len(sd) >= size_limit):
